@@ -75,7 +75,7 @@ def mismatches(txt):
     return out
 
 
-def validate(ctx, pid, traces, results, kinds_for_property=None, module="RequestLifecycleTrace", sigfn=None):
+def validate(ctx, pid, traces, results, kinds_for_property=None, module="RequestLifecycleTrace", sigfn=None, ignore_kinds=()):
     """Concatenate the shard traces (every run starts with a `run` event = TraceReset) and let TLC validate."""
     allp = os.path.join(ctx.tmp, pid + "_all.ndjson")
     with open(allp, "w") as fo:
@@ -111,7 +111,7 @@ def validate(ctx, pid, traces, results, kinds_for_property=None, module="Request
     def fail(line, kind):
         runev, st = run_at.get(line, (None, 0))
         case = (runev or {}).get("case", {})
-        if kinds_for_property is not None and kind not in kinds_for_property:
+        if (kinds_for_property is not None and kind not in kinds_for_property) or kind in ignore_kinds:
             ctx.notes.append("other-property mismatch %s in case %s" % (kind, json.dumps(case)))
             return
         end = next((j for j in range(line, len(evs) + 1) if evs[j - 1]["ev"] == "quiesce"), line)
@@ -130,6 +130,11 @@ def validate(ctx, pid, traces, results, kinds_for_property=None, module="Request
         raise vlib.Inconclusive("more than half of the guided schedules never reached their gate (%d/%d)" % (reached, held))
     return evs
 
+
+# kinds of RequestLifecycleTrace that speak about the clusters' circuit-breaker books: C10 judges them, C03 does not
+RESOURCE_KINDS = ("requests-resource-not-returned", "pending-resource-not-returned", "retries-resource-not-returned",
+                  "request-active-gauge-differs", "ghost-gauge")
+RETRY_GATES = ("ds.upreset.retry", "ds.retry.begin", "ds.retry.pool", "ds.retry.chosen", "ds.pe#7", "ds.pe#8", "ds.pe#10")
 
 HANG_KINDS = ("reply-later-than-timeout-plus-slack", "no-reply-in-bounded-time", "client-view-differs", "request-never-ended")
 
